@@ -1,6 +1,8 @@
 '''C05 hierarchical index: tree and table views agree; per-level selection is exact; grow-only histories.'''
 import itertools
 
+import json
+
 import numpy as np
 
 import static_frame as sf
@@ -147,8 +149,15 @@ def auto_key(rng, rows):
         inner = ['all']
     elif q < 0.55:
         inner = ['loc', ['i', rng.randint(0, 6)]]
-    else:
+    elif q < 0.75:
         inner = ['loclist', [['i', x] for x in rng.sample(range(0, 7), rng.randint(1, 3))]]
+    else:
+        # a list that names the label just past the end of some leaf (its length) next to a label every leaf holds
+        sizes = {}
+        for r in rows:
+            sizes[json.dumps(r[0])] = sizes.get(json.dumps(r[0]), 0) + 1
+        edge = rng.choice(sorted(set(sizes.values())))
+        inner = ['loclist', [['i', x] for x in rng.sample([0, edge], 2)] if rng.random() < 0.7 else [['i', edge]]]
     return [outer, inner]
 
 
@@ -383,7 +392,7 @@ def main(ctx):
         ctx.exhaustive = not quick
     events = []
     for i in range(3200 if quick else 30000):
-        if ctx.rng.random() < 0.08:
+        if ctx.rng.random() < 0.12:
             # hierarchies whose leaves are auto-integer (map-less) indices: a label beyond a leaf's length is absent THERE
             rows = auto_rows(ctx.rng)
             route = ctx.rng.choice(['auto_index_items', 'auto_concat_items'])
